@@ -7,18 +7,25 @@
 (***************************************************************************)
 EXTENDS TufClient
 
-CONSTANTS Exps      \* expiry values documents may carry (expired from clock value e+1 on)
+CONSTANTS Exps,     \* expiry values documents may carry (expired from clock value e+1 on)
+          Replay    \* TRUE: the freeze attack proper -- from the second cycle on the server serves exactly the
+                    \* documents the client stored in the cycle before (same shipped root, no newer roots)
+                    \* while the clock moves on
 
 R(v, e) == [k |-> "root", v |-> v, exp |-> e, len |-> 1, b |-> 1, signers |-> {9}, cons |-> FALSE,
             rk |-> {9}, rthr |-> 1, ts |-> <<1>>, tsthr |-> 1, sn |-> <<3>>, snthr |-> 1, tg |-> <<4>>, tgthr |-> 1]
 MC_Shipped == {R(1, e) : e \in Exps}
-MC_ShipRule(sh, mx) == TRUE
+MC_ShipRule(sh, mx) == ~Replay \/ cyc = 0 \/ sh = shipped
 \* a chain 1 -> 2 -> 3 whose intermediate root 2 may be expired
-MC_CandRoot(n, tr) == IF n <= 3 THEN {R(n, e) : e \in Exps} \cup {[k |-> "absent"]} ELSE {[k |-> "absent"]}
+MC_CandRoot(n, tr) == IF Replay THEN {[k |-> "absent"]} ELSE IF n <= 3 THEN {R(n, e) : e \in Exps} \cup {[k |-> "absent"]} ELSE {[k |-> "absent"]}
 Pin(v) == [v |-> v, h |-> NoDoc, len |-> 0]
-MC_CandTs(r) == {[k |-> "ts", v |-> 1, exp |-> e, len |-> 1, b |-> 1, signers |-> {1}, pin |-> Pin(1)] : e \in Exps}
-MC_CandSn(r, ts) == {[k |-> "sn", v |-> 1, exp |-> e, len |-> 1, b |-> 1, signers |-> {3}, pin |-> Pin(1)] : e \in Exps}
-MC_CandTg(r, sn) == {[k |-> "tg", v |-> 1, exp |-> e, len |-> 1, b |-> 1, signers |-> {4}] : e \in Exps}
+Again(kind) == Replay /\ cyc > 1 /\ IsDoc(store[kind])
+MC_CandTs(r) == IF Again("ts") THEN {store.ts} ELSE
+                {[k |-> "ts", v |-> 1, exp |-> e, len |-> 1, b |-> 1, signers |-> {1}, pin |-> Pin(1)] : e \in Exps}
+MC_CandSn(r, ts) == IF Again("sn") THEN {store.sn} ELSE
+                    {[k |-> "sn", v |-> 1, exp |-> e, len |-> 1, b |-> 1, signers |-> {3}, pin |-> Pin(1)] : e \in Exps}
+MC_CandTg(r, sn) == IF Again("tg") THEN {store.tg} ELSE
+                    {[k |-> "tg", v |-> 1, exp |-> e, len |-> 1, b |-> 1, signers |-> {4}] : e \in Exps}
 MC_Limit == [root |-> 2, ts |-> 2, sn |-> 2, tg |-> 2]
 NoChain == <<>>
 
